@@ -100,6 +100,32 @@ CHECKS.update({
         "the contract; 2 known findings",
    tech="TLA+ model checking + behaviour replay + TLC trace validation of real executions"),
 })
+CHECKS.update({
+ "C07": dict(engine="tlc+h_life", cat=MC, ref="4 C07",
+   text="TLC proves the C07 invariants (promised statements on disk in order at stop/exit; signalled thread's statements then notice; right wait "
+        "status; restart works) on Life.tla for all interleavings within small bounds, with -coverage and 7 seeded model defects caught; seeded TLC "
+        "behaviours are run as forked children with the real backend thread/FileSink/signals and every recorded execution is validated by TLC "
+        "against LifeContract (TraceLife.tla)",
+   note="exhaustive only for main+1 worker x3 statements x2 starts x six signals, main+2 workers x2 statements x{SEGV,INT}, and main+2 workers x3 "
+        "statements with no signals; the full bound by seeded simulation only; real code sampled (240/3000 children); a rejection must repeat in 3 "
+        "re-runs, anything else is drift; signals inside a log call and async-signal-safety are out of scope",
+   tech="TLA+ model checking + TLC trace validation of real executions in forked children"),
+ "C14": dict(engine="tlc+h_rot", cat=MC, ref="4 C14",
+   text="TLC proves RotateContract on the RotatingSink transcription (Rotate.tla) for every history up to the bound; every exported history plus "
+        "seeded random histories is replayed into the real RotatingFileSink and the recorded directory after each operation is validated by TLC "
+        "against the contract (TraceRotate.tla)",
+   note="model: limit 4 units, sizes {1,3,5}, backups {0,1,2,unlimited}, <=2 restarts, depth 7/6/5 quick and 9/7/7 thorough; count/deleted after an "
+        "append restart tolerated in the model for Date/DateAndTime (known findings, judged on the real code); real code observed on exported "
+        "(sampled in quick) + random histories; 4 known findings",
+   tech="TLA+ model checking + behaviour replay + TLC trace validation of real executions"),
+ "C15": dict(engine="tlc+h_rot", cat=MC, ref="4 C15",
+   text="TLC proves the schedule clauses of RotateContract on Rotate.tla with a schedule on an abstract calendar; exported + random histories mapped "
+        "to real timestamps (GMT, three DST zones, +05:30) are replayed into the real RotatingFileSink and validated by TLC against the contract "
+        "whose calendar is python zoneinfo",
+   note="daily exhaustive for the (repaired) next-HH:MM rule; hourly/minutely demand only the first boundary plus any consistent later reading; no "
+        "restarts; HH:MM values inside a DST gap or repeated hour are not explored",
+   tech="TLA+ model checking + behaviour replay + TLC trace validation of real executions"),
+})
 PENDING = "check under construction in this round (not yet claimed)"
 
 man = {"version": 1, "setup_cmd": "cd /verif && ./setup.sh",
@@ -115,6 +141,8 @@ man = {"version": 1, "setup_cmd": "cd /verif && ./setup.sh",
            {"name": "h_fmt_pattern", "path": "/verif/harness/h_fmt_pattern.cpp", "serves_properties": ["C12"], "kind_free_text": "real PatternFormatter / frontend+manual backend driven by TLC-exported cases"},
            {"name": "h_time", "path": "/verif/harness/h_time.cpp", "serves_properties": ["C13"], "kind_free_text": "real TimestampFormatter under TZ=<zone> with interposed strftime"},
            {"name": "h_named", "path": "/verif/harness/h_named.cpp", "serves_properties": ["C19"], "kind_free_text": "real named-args scanner and end-to-end JSON sink runs"},
+           {"name": "h_life", "path": "/verif/harness/h_life.cpp", "serves_properties": ["C07"], "kind_free_text": "forked children running the real backend thread, FileSink and signals"},
+           {"name": "h_rot", "path": "/verif/harness/h_rot.cpp", "serves_properties": ["C14", "C15"], "kind_free_text": "real RotatingFileSink driven by scripts in a scratch directory, directory listing after every op"},
            {"name": "h_spsc", "path": "/verif/harness/h_spsc.cpp", "serves_properties": [p for p in sorted(CHECKS) if "h_spsc" in CHECKS[p]["engine"]],
             "kind_free_text": "real SPSC queues executed on a shim std::atomic implementing the spec's release/acquire model, with payload race detector"}],
        "checks": [], "not_applicable": [],
